@@ -23,7 +23,7 @@ var c17Ambient = []string{"none", "cert", "mux", "sockdir", "sockgroup", "versio
 func init() {
 	Register(&Prop{ID: "C17",
 		Meta: Meta{Level: "exploration",
-			Rule:       "real Client launching a real Serve program that first records the environment it actually sees (after os/exec's de-duplication for command launch; last assignment in cmd.Env for a custom runner) and what it can read from stdin; client configurations AutoMTLS x multiplexing x SkipHostEnv x socket group x port range x versioned sets x launch method, crossed with host environments that already carry PLUGIN_CLIENT_CERT / PLUGIN_MULTIPLEX_GRPC / PLUGIN_UNIX_SOCKET_DIR / PLUGIN_UNIX_SOCKET_GROUP / PLUGIN_PROTOCOL_VERSIONS / port range / the cookie with another value (a host that is itself a plugin) and unrelated variables; matrix enumerated + seeded combinations. Oracle = reference environment computed from the client configuration alone: cookie, exact version set, port range, client certificate iff AutoMTLS, multiplex flag iff requested, socket group/dir iff configured, host variables iff not SkipHostEnv, stdin is the host's; and end to end: the start, a dispense and a call succeed, i.e. the plugin acted on this client's configuration",
+			Rule:       "real Client launching a real Serve program that first records the environment it actually sees (after os/exec's de-duplication for command launch; last assignment in cmd.Env for a custom runner) and what it can read from stdin; client configurations AutoMTLS x multiplexing x SkipHostEnv x socket group x port range x versioned sets x launch method, crossed with host environments that already carry PLUGIN_CLIENT_CERT / PLUGIN_MULTIPLEX_GRPC / PLUGIN_UNIX_SOCKET_DIR / PLUGIN_UNIX_SOCKET_GROUP / PLUGIN_PROTOCOL_VERSIONS / port range / the cookie with another value (a host that is itself a plugin) and unrelated variables; plus Cmd.Env given by the caller as a copy of a same-family host environment, and a command value prepared earlier by a client whose Start failed its checksum; matrix enumerated + seeded combinations. Oracle = reference environment computed from the client configuration alone: cookie, exact version set, port range, client certificate iff AutoMTLS, multiplex flag iff requested, socket group/dir iff configured, host variables iff not SkipHostEnv, stdin is the host's; and end to end: the start, a dispense and a call succeed, i.e. the plugin acted on this client's configuration",
 			Exhaustive: "AutoMTLS x mux x SkipHostEnv x launch x ambient-variable class"},
 		Plan: func(tier string, seed uint64, stage int, prev []*h.Result) []*k.Spec {
 			if stage > 0 {
